@@ -138,6 +138,8 @@ def _toposort(wd, tier, seed, verdict, replay_cases, ev):
         stats, lines = _read_driver_output(outp, cnt[0], "toposort")
         for m in lines:
             verdict.disagree(m["class"], dict(m["case"], variant=m["variant"]), m["detail"])
+        if stats.get("aborted"):
+            return
         ev["evaluations"] += stats.get("checks", 0)
         for k, v in stats.get("class_counts", {}).items():
             ev["class_counts"][k] = ev["class_counts"].get(k, 0) + v
@@ -248,8 +250,10 @@ def _trie(wd, tier, seed, verdict, replay_hists, ev):
             raise vf.MachineryError("trie driver failed: " + err)
         stats, lines = _read_driver_output(outp, cnt[0], "trie")
         for m in lines:
-            verdict.disagree(m["class"], {"hist": m["hist"], "query": m["query"], "coding": m["coding"], "step": m["step"]},
+            verdict.disagree(m["class"], {"hist": m["hist"], "query": m.get("query"), "coding": m.get("coding"), "step": m.get("step")},
                              m["detail"])
+        if stats.get("aborted"):
+            return
         ev["evaluations"] += stats["checks"]
         for k, v in stats["final_impl"].items():
             ev["trie_final_index_width"][k] = ev["trie_final_index_width"].get(k, 0) + v
